@@ -50,6 +50,8 @@ type H struct {
 	server *httptest.Server
 	mux    goahttp.Muxer
 	svcs   map[string]*mounted
+	// handled lists the (verb, pattern) pairs passed to Muxer.Handle while mounting
+	handled [][]string
 	// concurrent mode: per-request stub behaviour keyed by a token the payload carries
 }
 
@@ -192,6 +194,7 @@ type Obs struct {
 	ClientErr    *ErrObs    `json:"client_err,omitempty"`
 	AuthCalls    []AuthCall `json:"auth_calls,omitempty"`
 	Mounts       [][]string `json:"mounts,omitempty"`
+	Handled      [][]string `json:"handled,omitempty"`
 	ServerPanic  string     `json:"server_panic,omitempty"`
 }
 
@@ -234,8 +237,19 @@ func (h *H) Main() {
 	}
 }
 
+// recMux records every Handle call made by the generated Mount functions.
+type recMux struct {
+	goahttp.Muxer
+	h *H
+}
+
+func (r recMux) Handle(method, pattern string, handler http.HandlerFunc) {
+	r.h.handled = append(r.h.handled, []string{method, pattern})
+	r.Muxer.Handle(method, pattern, handler)
+}
+
 func (h *H) start() error {
-	h.mux = goahttp.NewMuxer()
+	h.mux = recMux{goahttp.NewMuxer(), h}
 	for name, def := range h.defs {
 		m := &mounted{def: def}
 		m.stub = def.NewStub(h)
@@ -537,6 +551,7 @@ func (h *H) run(c *Case) (obs *Obs) {
 				obs.Mounts = append(obs.Mounts, []string{m.def.Name, mp.FieldByName("Method").String(), mp.FieldByName("Verb").String(), mp.FieldByName("Pattern").String()})
 			}
 		}
+		obs.Handled = h.handled
 		return obs
 	case "raw":
 		req, err := http.NewRequest(c.Raw.Method, h.server.URL+c.Raw.URL, bytes.NewReader(c.Raw.Body))
